@@ -59,6 +59,7 @@ func registerStdIntrinsics(ip *Interp) {
 	registerFS(ip)
 	registerSync(ip)
 	registerEnv(ip)
+	registerRegexp(ip)
 }
 
 // ---------------------------------------------------------------- fmt
